@@ -60,7 +60,7 @@ LEVEL_TEXT = ("Sampled exploration of the four algebraic merge laws on real "
 LEVEL_NOTE = ("Trees bounded to ~14 entries and scripts to 5 ops per side; "
               "the union law needs a definition of 'disjoint' (stated in the "
               "rule); criss-cross histories only with LCAs equal to BASE.")
-REGISTERED = False
+REGISTERED = True
 NONTRIVIAL_FLOOR = {"quick": 150, "thorough": 3000}
 
 FAMILIES = ["other=base", "this=base", "identical", "disjoint"]
@@ -728,7 +728,7 @@ def gen_case(draw, fmt="2a", mtypes=("merge3",)):
         mode = draw(st.sampled_from(["branch", "branch", "merger",
                                      "merger-explicit-base"]))
     criss = (mode not in ("direct", "pointless", "merger-explicit-base")
-             and draw(st.integers(0, 9 if git else 3)) == 0)
+             and draw(st.integers(0, 19 if git else 3)) == 0)
     dirty = 0
     if mt == "merge3" and fam != "this=base" and dt and \
             draw(st.integers(0, 3)) == 0:
